@@ -146,7 +146,7 @@ def run_split(progs_path, trace_path, parts):
             pieces.append((pp, f"{trace_path}.p{i}"))
     t = time.time()
     with ThreadPoolExecutor(max_workers=len(pieces)) as ex:
-        infos = list(ex.map(lambda pt: lib.run_driver("drv_storage", ["--programs", pt[0], "--out", pt[1], "--timeout", 120]), pieces))
+        infos = list(ex.map(lambda pt: lib.run_driver("drv_storage", ["--programs", pt[0], "--out", pt[1], "--timeout", 300]), pieces))
     merged = {"wall_s": round(time.time() - t, 2)}
     for inf in infos:
         for k, v in inf.items():
@@ -261,6 +261,19 @@ def log_programs(quick):
     for filler in ({"op": "fill", "n": 25, "of": "a"}, {"op": "churn", "n": 13, "of": "a"}, {"op": "fill", "n": 70, "of": "a"}):
         out.append({"comp": "dyn", "mode": "none", "compress": False, "payloads": pay,
                     "ops": [w, rm, filler, w, rd, ro, rd, rm, filler, w, {"op": "flush"}, rd, ro]})
+    # far offsets: small objects stored beyond 64 MiB of the archive (offsets that need more than 26 of the 30 bits),
+    # read back immediately, after reopen (entries in the update log), after flush + reopen (sorted section)
+    mib = 1 << 20
+    far = [["s1", "plain", 500], ["B1", "comp", 23 * mib], ["B2", "plain", 23 * mib + 1], ["B3", "comp", 23 * mib + 2],
+           ["s2", "plain", 700], ["e", "plain", 0], ["s3", "plain", 60], ["m", "comp", 3 * mib], ["s4", "plain", 900], ["x", "plain", 40]]
+    wr = lambda n: {"op": "write", "p": n}
+    rdp = lambda n: {"op": "read", "p": n}
+    for comp in ("dyn", "inst"):
+        ops = [wr(n) for n in ("s1", "B1", "B2", "B3", "s2", "e", "s3", "m", "s4")] + [rdp("s3"), ro, rdp("s2"), rdp("m"), rdp("B3")]
+        if comp == "dyn":
+            ops += [{"op": "flush"}]
+        ops += [wr("s1"), ro]
+        out.append({"comp": comp, "mode": "none", "compress": False, "payloads": far, "ops": ops})
     # parallel writers: t threads x m distinct objects, barrier before every round; then everything is read back
     # (audit), also after reopen.  Nothing here depends on timing: on a correct store every history passes.
     for comp in ("dyn", "inst"):
@@ -361,14 +374,21 @@ def run(ctx):
     logs = log_programs(ctx.quick)
     open(lp, "w").write("\n".join(json.dumps(p) for p in logs) + "\n")
     trace = ctx.path("trace_log.ndjson")
-    d = lib.run_driver("drv_storage", ["--programs", lp, "--out", trace, "--timeout", 300])
-    ctx.stage("run", source="scripted (index log, tombstone order, parallel writers)", programs=d.get("programs"), events=d.get("events"), hangs=d.get("hangs"), wall_s=d["wall_s"])
+    d = run_split(lp, trace, min(lib.NCPU, 8))
+    ctx.stage("run", source="scripted (index log, tombstone order, far offsets, parallel writers)", programs=d.get("programs"), events=d.get("events"), hangs=d.get("hangs"), wall_s=d["wall_s"])
     if d.get("programs") != len(logs):
         raise lib.ToolError(f"driver executed {d.get('programs')} of {len(logs)} log programs")
     count_ops(ctx, d)
-    judge_trace(ctx, trace, "scripted: index log overflow, tombstone order, parallel writers", kd, totals)
+    judge_trace(ctx, trace, "scripted: index log overflow, tombstone order, far offsets, parallel writers", kd, totals)
     total_programs += len(logs)
     distinct += len(logs)
+    # binding E: boundary archive locations through every place that serialises the 5-byte location
+    trace = ctx.path("trace_loc.ndjson")
+    d = lib.run_driver("drv_storage", ["--loc", "--out", trace])
+    v = judge_trace(ctx, trace, "location packing (binding E)", kd, totals)
+    ctx.cov["location_round_trips_evaluated"] = v.get("loc_evals", 0)
+    if v.get("loc_evals", 0) < 1000:
+        raise lib.ToolError(f"binding E evaluated only {v.get('loc_evals', 0)} locations")
     if not ctx.quick:
         bp = ctx.path("prog_big.ndjson")
         bigs = big_programs()
